@@ -9,6 +9,7 @@ import (
 	"github.com/casbin/casbin/v2/model"
 	"github.com/casbin/casbin/v2/rbac"
 	defaultrolemanager "github.com/casbin/casbin/v2/rbac/default-role-manager"
+	"github.com/casbin/casbin/v2/util"
 )
 
 // C11: a failed persistence or load leaves the enforcer unchanged.
@@ -532,6 +533,78 @@ func c11RoleManagerFaults(c *Ctx) {
 			}
 			c.Count("conditional-link-failure-during-load")
 		}
+	}
+	// the other way round: the PLAIN role manager fails while the links of a reloaded policy are
+	// built, in a model that also has a conditional role definition whose links the decisions
+	// depend on: the rejected reload leaves the conditional links (and everything else) alone.
+	{
+		text := "[request_definition]\nr = sub, obj, act\n[policy_definition]\np = sub, obj, act\n[role_definition]\ng = _, _\ng2 = _, _, (_, _)\n[policy_effect]\ne = some(where (p.eft == allow))\n[matchers]\nm = (g(r.sub, p.sub) || g2(r.sub, p.sub)) && r.obj == p.obj && r.act == p.act\n"
+		names := []string{"alice", "bob", "carol", "admin", "auditor"}
+		olds := []prule{{"p", []string{"admin", "data1", "read"}}, {"p", []string{"auditor", "data2", "read"}}, {"g", []string{"alice", "admin"}}, {"g2", []string{"alice", "auditor", "0000-01-01 00:00:00", "9999-12-30 00:00:00"}}, {"g2", []string{"bob", "auditor", "0000-01-01 00:00:00", "9999-12-30 00:00:00"}}}
+		fresh := []prule{{"p", []string{"admin", "data1", "read"}}, {"p", []string{"auditor", "data2", "read"}}, {"g", []string{"bob", "admin"}}, {"g", []string{"carol", "admin"}}, {"g2", []string{"carol", "auditor", "0000-01-01 00:00:00", "9999-12-30 00:00:00"}}}
+		for j := 1; j <= 2; j++ {
+			mm, _ := model.NewModelFromString(text)
+			a := newRecAdapter()
+			a.Content = olds
+			e, err := casbin.NewEnforcer(mm, a)
+			if err != nil {
+				c.Direct("c11.cond.plainfail.load", "initial load failed", err.Error())
+				break
+			}
+			e.AddNamedLinkConditionFunc("g2", "alice", "auditor", util.TimeMatchFunc)
+			e.AddNamedLinkConditionFunc("g2", "bob", "auditor", util.TimeMatchFunc)
+			snap := func() string {
+				var parts []string
+				for _, u := range names {
+					for _, o := range []string{"data1", "data2"} {
+						if ok, _ := e.Enforce(u, o, "read"); ok {
+							parts = append(parts, u+":"+o)
+						}
+					}
+				}
+				gp, _ := e.GetNamedGroupingPolicy("g")
+				g2, _ := e.GetNamedGroupingPolicy("g2")
+				return fmt.Sprintf("%s | g=%v g2=%v", strings.Join(parts, " "), gp, g2)
+			}
+			before := snap()
+			frm := &c11FailingRM{RoleManager: e.GetNamedRoleManager("g"), failAt: j}
+			e.SetNamedRoleManager("g", frm)
+			a.Content = fresh
+			lerr := e.LoadPolicy()
+			frm.failAt = 0
+			after := snap()
+			id := fmt.Sprintf("c11.cond.plainfail.%d", j)
+			if lerr == nil {
+				c.Direct(id, "LoadPolicy did not report the plain role manager's error", "")
+			} else if before != after {
+				c.Direct(id, "LoadPolicy failed while the plain role links were built and changed decisions that depend on the conditional role links", fmt.Sprintf("error=%v: %s -> %s", lerr, before, after))
+			}
+			c.Count("plain-link-failure-with-conditional-definition")
+		}
+	}
+	// UpdateFilteredPolicies / UpdateFilteredNamedPolicies with a failing adapter (the call is not in
+	// the enumeration's alphabet): the adapter's error reaches the caller and nothing changes
+	for _, pt := range []string{"p", "named"} {
+		m := newMach(c11Conf, true, false, "none", nil)
+		_, _ = m.E.AddPolicy("alice", "data1", "read")
+		_, _ = m.E.AddPolicy("alice", "data2", "read")
+		lb, cb := m.listedKey(), m.A.contentKey()
+		m.A.FailIn = 0
+		var ok bool
+		var err error
+		if pt == "p" {
+			ok, err = m.E.UpdateFilteredPolicies([][]string{{"bob", "data1", "read"}}, 0, "alice")
+		} else {
+			ok, err = m.E.UpdateFilteredNamedPolicies("p", [][]string{{"bob", "data1", "read"}}, 0, "alice")
+		}
+		m.A.FailIn = -1
+		if err == nil {
+			c.Direct("c11.updatefiltered."+pt, fmt.Sprintf("the adapter's UpdateFilteredPolicies failed but the call reported (%v, nil)", ok), "UpdateFiltered...Policies([[bob ...]], 0, alice)")
+		}
+		if lb != m.listedKey() || cb != m.A.contentKey() {
+			c.Direct("c11.updatefiltered."+pt, "a failing UpdateFilteredPolicies changed the enforcer or the store", fmt.Sprintf("listed %s -> %s ; store %s -> %s", lb, m.listedKey(), cb, m.A.contentKey()))
+		}
+		c.Count("failing-updatefiltered")
 	}
 	// F17 (known): a failing AddLink inside AddGroupingPolicy leaves the rule listed without link
 	mm, _ := model.NewModelFromString(c11Conf.Text)
